@@ -137,7 +137,8 @@ uint32_t igris_atou32(const char *buf, uint8_t base, char **end)
 {
     uint32_t res = 0;
 
-    for (char c = *buf; ((c = *buf)) && igris_isxdigit(c); buf++)
+    for (char c = *buf; ((c = *buf)) && igris_isalnum(c) && hex2half(c) < base;
+         buf++)
     {
         res = res * base + hex2half(c);
     }
@@ -152,7 +153,8 @@ uint64_t igris_atou64(const char *buf, uint8_t base, char **end)
 {
     uint64_t res = 0;
 
-    for (char c = *buf; ((c = *buf)) && igris_isxdigit(c); buf++)
+    for (char c = *buf; ((c = *buf)) && igris_isalnum(c) && hex2half(c) < base;
+         buf++)
     {
         res = res * base + hex2half(c);
     }
